@@ -61,7 +61,7 @@ CheckEv(e) ==
     IF e.r.exc # "" THEN "bad:harness:" \o e.r.exc
     ELSE CASE e.c.op = "capi" -> Capi(e.c, e.r)
            [] e.c.op = "ccont" -> Ccont(e.c, e.r)
-           [] OTHER -> ExprOps(e.c, e.r)
+           [] OTHER -> (IF e.r.bexc # "" THEN "unk" ELSE ExprOps(e.c, e.r))
 Events == ndJsonDeserialize(IOEnv.TRACE)
 K == INSTANCE TraceKit WITH Check <- CheckEv, Events <- Events
 Init == K!Init
